@@ -21,6 +21,7 @@ ENGINES = {
     "C16": ("eng_range", "run"),
     "C17": ("eng_text", "run"),
     "C18": ("eng_hub", "run"),
+    "C19": ("eng_angle", "run"),
 }
 
 
